@@ -1772,7 +1772,12 @@ def angular_separation(alpha1, delta1, alpha2, delta2):
     ddelta = ddelta.rad()
     d1 = delta1.rad()
     d2 = delta2.rad()
-    theta = 2.0 * asin(sqrt(hav(ddelta) + cos(d1) * cos(d2) * hav(dalpha)))
+    h = hav(ddelta) + cos(d1) * cos(d2) * hav(dalpha)
+    # 1 - h, computed without cancellation: asin(sqrt(h)) alone is
+    # ill-conditioned for separations close to 180 degrees
+    hc = (cos(ddelta / 2.0) * cos(dalpha / 2.0)) ** 2 + (
+        sin((d1 + d2) / 2.0) * sin(dalpha / 2.0)) ** 2
+    theta = 2.0 * atan2(sqrt(h), sqrt(hc))
     theta = Angle(theta, radians=True)
     return theta
 
@@ -1985,7 +1990,12 @@ def relative_position_angle(alpha1, delta1, alpha2, delta2):
     da = da.rad()
     d1 = delta1.rad()
     d2 = delta2.rad()
-    p = atan2(sin(da), (cos(d2) * tan(d1) - sin(d2) * cos(da)))
+    # Meeus' tan(p) = sin(da) / (cos(d2) * tan(d1) - sin(d2) * cos(da)), with
+    # both terms multiplied by cos(d1) and the denominator written so that
+    # nothing cancels when the two bodies are close to each other
+    dd = (delta1 - delta2).rad()
+    x = sin(dd) + 2.0 * sin(d2) * cos(d1) * sin(da / 2.0) ** 2
+    p = atan2(cos(d1) * sin(da), x)
     p = Angle(p, radians=True)
     return p
 
